@@ -66,7 +66,7 @@ func NewConfig(prop string, tier string, r *core.Rand) Config {
 		if r.Chance(0.3) {
 			// the block producer also serves query-connection traffic (Info, queries) and CheckTx
 			c.Noisy, c.NoisyLeader = true, true
-			c.SideMean, c.QueryMean = 0.2, 0.2
+			c.SideMean, c.QueryMean = []float64{0.2, 0.6}[r.Intn(2)], 0.2
 			c.Followers = 1
 		}
 		c.PInvalid = 0.05
@@ -110,6 +110,14 @@ func NewConfig(prop string, tier string, r *core.Rand) Config {
 			c.Followers = 1
 		}
 		c.KindW["stake"], c.KindW["delegate"], c.KindW["unstake"] = 3, 3, 2
+		if r.Chance(0.4) {
+			// governance-heavy: parameters change while nodes are restarted ("restarts directly after blocks
+			// that changed ... governance parameters")
+			c.KindW["proposal"], c.KindW["vote"] = 2.5, 5
+			c.NVals = r.Range(2, 4)
+			c.NActors = c.NVals + r.Range(3, 6)
+			c.Blocks = r.Range(24, 40)
+		}
 	case "C08":
 		c.Followers = 0
 		c.CrashEnum = 2
@@ -208,6 +216,16 @@ func NewConfig(prop string, tier string, r *core.Rand) Config {
 			c.PRestartL = []float64{0, 0.05, 0.15, 0.3}[r.Intn(4)]
 		}
 	}
+	if ((prop == "C05" || prop == "C13") && r.Chance(0.12)) || (prop != "C08" && prop != "C18" && prop != "C20" && r.Chance(0.02)) {
+		// amounts at the 256-bit boundary inside the reward path
+		c.RewardCliff = r.Range(4, 6)
+		c.Blocks = 2*c.RewardCliff - 2
+		c.KindW["withdraw"] = 5
+		c.PAbsent, c.POutage = 0, 0
+		if c.NVals < 1 {
+			c.NVals = 1
+		}
+	}
 	switch prop {
 	case "C06":
 		if r.Chance(0.5) {
@@ -262,7 +280,7 @@ func NewGenesis(c *Config, seed uint64, world int, r *core.Rand) GenesisSpec {
 	if r.Chance(0.25) {
 		gov.MaxValidatorCnt = int64(c.NVals) // more candidates than seats becomes reachable
 	}
-	if r.Chance(0.1) || (c.Property == "C13" && r.Chance(0.25)) {
+	if r.Chance(0.1) || ((c.Property == "C13" || c.Property == "C03") && r.Chance(0.25)) {
 		// reward rates at which power x rate leaves 64 bits
 		gov.RewardPerPower, _ = new(big.Int).SetString([]string{"1000000000000000000", "4611686018427387904", "9223372036854775813", "30000000000000000000"}[r.Intn(4)], 10)
 	}
@@ -273,6 +291,13 @@ func NewGenesis(c *Config, seed uint64, world int, r *core.Rand) GenesisSpec {
 	whale := -1
 	if c.NVals > 0 && (r.Chance(0.05) || (c.Property == "C13" && r.Chance(0.2))) {
 		whale = r.Intn(c.NVals) // one validator whose power x the default rate leaves 64 bits
+	}
+	cliffPower := int64(0)
+	if c.RewardCliff > 0 {
+		whale = r.Intn(c.NVals)
+		cliffPower = 3_000_000_000 + int64(r.Intn(1_000_000))*int64(r.Range(1, 20_000))
+		den := new(big.Int).Mul(big.NewInt(cliffPower), big.NewInt(int64(c.RewardCliff)))
+		gov.RewardPerPower = new(big.Int).Div(new(big.Int).Lsh(big.NewInt(1), 255), den)
 	}
 	g.Gov = gov
 	for i := 0; i < c.NActors; i++ {
@@ -293,6 +318,9 @@ func NewGenesis(c *Config, seed uint64, world int, r *core.Rand) GenesisSpec {
 			}
 			if i == whale {
 				ga.Power = 3_000_000_000 + int64(r.Intn(1_000_000))*int64(r.Range(1, 20_000))
+				if cliffPower > 0 {
+					ga.Power = cliffPower
+				}
 			}
 			if ga.Balance == "0" && r.Chance(0.7) {
 				ga.Balance = new(big.Int).Mul(big.NewInt(int64(r.Range(1000, 100_000))), coin).String()
@@ -315,6 +343,7 @@ type Generator struct {
 	absentNow             map[Addr]bool
 	absentHist            map[Addr]int64
 	curH                  int64
+	reopenedPrev          bool // some node was reopened from its stores at the previous block boundary
 }
 
 func NewGenerator(w *World) *Generator {
@@ -458,6 +487,22 @@ func (g *Generator) govOption() string {
 		{"maxVotingPeriodBlocks", fmt.Sprint(g.r.Range(4, 10))},
 		{"minSelfStakeRatio", fmt.Sprint(g.r.Range(1, 60))},
 	}
+	if ds := sortedAddrs(m.Delegs); len(ds) > 1 && g.r.Chance(0.5) {
+		// a minimum that cuts through the existing delegatees: just above or at one's own stake (never the largest)
+		top, pick := int64(0), m.Delegs[ds[g.r.Intn(len(ds))]].Self()
+		for _, a := range ds {
+			if s := m.Delegs[a].Self(); s > top {
+				top = s
+			}
+		}
+		if v := pick + int64(g.r.Range(0, 1)); v >= 1 && v <= top && v < 1_000_000 {
+			for i := range pool {
+				if pool[i].k == "minValidatorStake" {
+					pool[i].v = new(big.Int).Mul(big.NewInt(v), coin).String()
+				}
+			}
+		}
+	}
 	n := g.r.Range(1, 3)
 	perm := g.r.Perm(len(pool))[:n]
 	sort.Ints(perm)
@@ -477,14 +522,20 @@ func (g *Generator) mutation(kind string) *Mutation {
 		fields = append(fields, "inject", "inject", "inject")
 	}
 	f := fields[g.r.Intn(len(fields))]
+	if kind == "withdraw" && g.r.Chance(0.4) {
+		return &Mutation{Field: "payload", How: []string{"w64", ""}[g.r.Intn(2)]}
+	}
 	mu := &Mutation{Field: f}
 	switch f {
 	case "sig":
 		mu.How = []string{"flip", "trunc", "v", "malleate", "other", "empty", "reuse", "reuse"}[g.r.Intn(8)]
 	case "payload":
-		mu.How = []string{"", "msg", "opt", "apply", "period", "hash", "url"}[g.r.Intn(7)]
+		mu.How = []string{"", "msg", "opt", "apply", "period", "hash", "url", "w64"}[g.r.Intn(8)]
 	case "amount", "nonce":
 		mu.How = []string{"inc", "dec"}[g.r.Intn(2)]
+		if f == "amount" && g.r.Chance(0.3) {
+			mu.How = []string{"w64", "w128"}[g.r.Intn(2)] // only a higher word changes
+		}
 	}
 	return mu
 }
@@ -514,6 +565,14 @@ func (g *Generator) intent(h int64) Intent {
 		} else {
 			it.To = fmt.Sprintf("a%d", g.pickActor())
 		}
+	}
+	if k == "delegate" && m.Gov.MinDelegatorStake.Sign() > 0 && g.r.Chance(0.25) {
+		// around the minimum a delegator must bond (a parameter every replica, also a reopened one, must hold)
+		it.Amt = "n:" + new(big.Int).Add(m.Gov.MinDelegatorStake, new(big.Int).Mul(big.NewInt(int64(g.r.Range(-1, 1))), big1e18)).String()
+		g.w.Probes.Hit("gen.min-delegator-probe")
+	}
+	if k == "stake" && g.r.Chance(0.12) {
+		it.Amt = "n:" + new(big.Int).Add(m.Gov.MinValidatorStake, new(big.Int).Mul(big.NewInt(int64(g.r.Range(-1, 1))), big1e18)).String()
 	}
 	if (k == "stake" || k == "delegate") && g.w.leader().State.Validators.Size() >= 3 && g.r.Chance(0.3) {
 		// probe the staking limits: choose the power so that the delegatee's share of the validators'
@@ -586,6 +645,9 @@ func (g *Generator) intent(h int64) Intent {
 			}
 		}
 		it = Intent{Kind: "withdraw", Actor: cand, Amt: []string{"claim", "claim", "claim/2", "claim/3", "claim+1", "0", "n:1", "claim-1"}[g.r.Intn(8)]}
+		if g.r.Chance(0.2) {
+			it.To = g.target() // a receiver field other than the sender
+		}
 	case "proposal":
 		// by a validator most of the time
 		vals := g.w.leader().State.NextValidators.Validators
@@ -710,7 +772,7 @@ func (g *Generator) intent(h int64) Intent {
 		case 0:
 			it.Nonce = []int{1, -1, 2, 5}[g.r.Intn(4)]
 		case 1:
-			it.Gas = []string{"min-1", "0", "n:1", "n:30000000", "n:25000001"}[g.r.Intn(5)]
+			it.Gas = []string{"min-1", "0", "n:1", "n:30000000", "n:25000001", "n:80000000", "n:20000000000", "n:9000000000000000000"}[g.r.Intn(8)]
 		case 2:
 			it.Price = []string{"gov+1", "gov-1", "0", "max"}[g.r.Intn(4)]
 		case 3:
@@ -908,6 +970,10 @@ func (g *Generator) NextBlock(h int64) BlockStep {
 		}
 		st.Txs = append(st.Txs, it)
 	}
+	if g.reopenedPrev && !bootstrapQuiet {
+		st.Txs = append(st.Txs, g.reopenProbes()...)
+	}
+	g.reopenedPrev = false
 	if bootstrapQuiet {
 		st.Evidence = nil
 	}
@@ -992,6 +1058,11 @@ func (g *Generator) NextBlock(h int64) BlockStep {
 		pt := points[g.r.Intn(len(points))]
 		st.Faults = append(st.Faults, Fault{Kind: "crashfork", Replica: g.r.Intn(len(w.Reps)), At: pt, Follow: 3})
 	}
+	for _, f := range st.Faults {
+		if f.Kind == "restart" || f.Kind == "crashfork" {
+			g.reopenedPrev = true
+		}
+	}
 	return st
 }
 
@@ -1033,4 +1104,115 @@ func (g *Generator) query(ri int, pt string, h int64) Side {
 		s.QHeight = []int64{-9_000_000_000_000_000, 0, 1 << 62, int64(h) + 5, 1}[g.r.Intn(5)]
 	}
 	return s
+}
+
+
+// reopenProbes: transactions for the block right after some node was reopened from its stores (stop/start
+// or crash recovery). They sit at decisions that depend on parameters and sets a controller may hold in
+// memory only - minimum stakes, minimum/maximum gas and price, the staking ratio limits, who is a validator
+// (proposals), live stakes and claims - so that a node whose rebuilt memory differs from the memory of a node
+// that kept running answers differently inside a real block.
+func (g *Generator) reopenProbes() []Intent {
+	w := g.w
+	m := w.M
+	coin := big1e18
+	var its []Intent
+	rich := func(skip int) int {
+		best := -1
+		for i, a := range w.Actors {
+			if i == skip {
+				continue
+			}
+			if best < 0 || m.Balance(a.Addr).Cmp(m.Balance(w.Actors[best].Addr)) > 0 {
+				best = i
+			}
+		}
+		return best
+	}
+	amt := func(base *big.Int, dCoins int64) string {
+		v := new(big.Int).Add(base, new(big.Int).Mul(big.NewInt(dCoins), coin))
+		if v.Sign() < 0 {
+			v.SetInt64(0)
+		}
+		return "n:" + v.String()
+	}
+	delegs := sortedAddrs(m.Delegs)
+	isDeleg := map[int]bool{}
+	var dIdx []int
+	for _, a := range delegs {
+		if act, ok := w.ByAddr[a]; ok {
+			isDeleg[act.Idx] = true
+			dIdx = append(dIdx, act.Idx)
+		}
+	}
+	base := int64(0)
+	for _, v := range w.leader().State.NextValidators.Validators {
+		base += v.VotingPower
+	}
+	if len(dIdx) > 0 {
+		d := dIdx[g.r.Intn(len(dIdx))]
+		if from := rich(d); from >= 0 {
+			to := fmt.Sprintf("a%d", d)
+			if m.Gov.MinDelegatorStake.Sign() > 0 {
+				its = append(its, Intent{Kind: "stake", Actor: from, To: to, Amt: amt(m.Gov.MinDelegatorStake, -1)})
+			}
+			its = append(its, Intent{Kind: "stake", Actor: from, To: to, Amt: "pow:1"})
+			t := m.Delegs[w.Actors[d].Addr].Total()
+			for _, ratio := range []int64{m.Gov.MaxIndividualStakeRatio, m.Gov.MaxUpdatableStakeRatio} {
+				if ratio > 0 && ratio < 95 && base > 0 {
+					if p := (ratio*base-100*t)/(100-ratio) + int64(g.r.Range(-1, 1)); p >= 1 && p < 1_000_000_000 {
+						its = append(its, Intent{Kind: "stake", Actor: from, To: to, Amt: fmt.Sprintf("pow:%d", p)})
+					}
+				}
+			}
+		}
+	}
+	for i := range w.Actors {
+		if !isDeleg[i] && m.Balance(w.Actors[i].Addr).Cmp(m.Gov.MinValidatorStake) > 0 {
+			its = append(its, Intent{Kind: "stake", Actor: i, To: fmt.Sprintf("a%d", i), Amt: amt(m.Gov.MinValidatorStake, int64(g.r.Range(-1, 0)))})
+			break
+		}
+	}
+	if a := rich(-1); a >= 0 {
+		to := fmt.Sprintf("a%d", rich(a))
+		gs := []string{"min-1", "min", fmt.Sprintf("n:%d", m.Gov.MaxTrxGas), fmt.Sprintf("n:%d", m.Gov.MaxTrxGas+1)}
+		its = append(its, Intent{Kind: "transfer", Actor: a, To: to, Amt: "n:1", Gas: gs[g.r.Intn(len(gs))]})
+		its = append(its, Intent{Kind: "transfer", Actor: a, To: to, Amt: "n:1", Price: []string{"gov+1", "gov-1"}[g.r.Intn(2)]})
+	}
+	// a proposal by a validator and one by somebody who is none
+	vals := w.leader().State.Validators.Validators
+	if len(vals) > 0 {
+		if act, ok := w.ByAddr[ToAddr(vals[g.r.Intn(len(vals))].Address)]; ok {
+			its = append(its, Intent{Kind: "proposal", Actor: act.Idx, Start: 2, Period: m.Gov.MinVotingPeriodBlocks, Opts: []string{g.govOption()}})
+		}
+	}
+	for i, a := range w.Actors {
+		inSet := false
+		for _, v := range vals {
+			if ToAddr(v.Address) == a.Addr {
+				inSet = true
+			}
+		}
+		if !inSet {
+			its = append(its, Intent{Kind: "proposal", Actor: i, Start: 2, Period: m.Gov.MinVotingPeriodBlocks, Opts: []string{`{"gasPrice":"7"}`}})
+			break
+		}
+	}
+	for _, a := range sortedAddrs(m.Claims) {
+		if act, ok := w.ByAddr[a]; ok && m.Claims[a].Sign() > 0 {
+			its = append(its, Intent{Kind: "withdraw", Actor: act.Idx, Amt: []string{"claim", "claim+1"}[g.r.Intn(2)]})
+			break
+		}
+	}
+	// keep the block small: a random half
+	var out []Intent
+	for _, it := range its {
+		if g.r.Chance(0.5) {
+			out = append(out, it)
+		}
+	}
+	if len(out) > 0 {
+		w.Probes.Hit("gen.reopen-probes")
+	}
+	return out
 }
